@@ -202,6 +202,18 @@ pub fn worker_exit() {
     }
 }
 
+/// Put at the top of a worker closure: if the worker unwinds (panic in the code under test) it is
+/// taken out of the schedule so that the other workers are not left waiting for it.
+pub struct WorkerGuard;
+
+impl Drop for WorkerGuard {
+    fn drop(&mut self) {
+        if std::thread::panicking() {
+            worker_exit();
+        }
+    }
+}
+
 /// Called by `MMWriter::write_at`; returns false when the write would leave the slice
 /// (the caller then skips it, so that the harness survives to report it).
 pub fn log_write(pos: usize, len: usize, capacity: usize) -> bool {
